@@ -83,7 +83,7 @@ impl<T: Qcow2IoOps> Qcow2Dev<T> {
         &self,
         reftable: &LockWriteGuard<RefTable>,
         grown_rt: &mut RefTable,
-    ) -> Qcow2Result<(u64, usize)> {
+    ) -> Qcow2Result<(u64, usize, Qcow2Result<()>)> {
         let info = &self.info;
         let new_rt_clusters = grown_rt.cluster_count(info);
         if new_rt_clusters >= info.rb_entries() - 1 {
@@ -172,12 +172,14 @@ impl<T: Qcow2IoOps> Qcow2Dev<T> {
         }
 
         // The old table is about to be released (and its clusters reused):
-        // the header must not point to it any more after a crash.
-        self.call_fsync(0, usize::MAX, 0).await?;
+        // the header must not point to it any more after a crash.  The
+        // header has been switched at this point, so a failure here can't
+        // undo the move any more: the caller has to take the new table.
+        let synced = self.call_fsync(0, usize::MAX, 0).await;
 
         // The old table is released by the caller once it has dropped the
         // reftable write lock: free_clusters() takes that lock for reading.
-        Ok((old_rt_offset, old_rt_clusters))
+        Ok((old_rt_offset, old_rt_clusters, synced))
     }
 
     async fn get_reftable_entry(&self, rt_idx: usize) -> RefTableEntry {
@@ -418,10 +420,16 @@ impl<T: Qcow2IoOps> Qcow2Dev<T> {
                 info.cluster_size(),
                 1 << info.block_size_shift,
             );
+            let mut synced = Ok(());
             if !grown_rt.is_update() {
-                old_reftable = Some(self.grow_reftable(&reftable, &mut grown_rt).await?);
+                let (off, clusters, res) = self.grow_reftable(&reftable, &mut grown_rt).await?;
+                old_reftable = Some((off, clusters));
+                synced = res;
             }
             *reftable = grown_rt;
+            // the header may still point to the old table after a crash: it
+            // can't be released (and is leaked)
+            synced?;
         }
 
         // Retry before allocating, maybe something has changed in the meantime
